@@ -444,6 +444,41 @@ def _exclusive_kinds(g: Any) -> list[str]:
     return sorted({next(iter(ks)) for ks in inc.values() if len(ks) == 1})
 
 
+def _work_subst(args: tuple) -> dict:
+    """substitution consistency: change ONE node X of a witness graph through
+    each rewriter and compare with the independent reflective substitution"""
+    name, flt = args
+    H = _W["H"]
+    root = H.all_witnesses()[name]
+    records, findings = [], []
+    stats: dict[str, Any] = {"subst_runs": 0, "subst_triples": {}}
+    for j, (x, new, kind, eks) in enumerate(H.substitution_cases(root)):
+        expected = H.reflect_substitute(root, x, new)
+        for rname, fn in H.rewriters(x, new).items():
+            case = f"subst/{name}/{j}"
+            try:
+                got = fn(root)
+            except NotImplementedError as ex:
+                if "no CopyMapper handler" in str(ex):
+                    continue
+                findings.append({"clause": "unexpected_exception", "mapper": rname, "case": case,
+                                 "exc": "NotImplementedError", "nodekind": kind,
+                                 "what": f"changing one {kind} raised {ex}"[:200]})
+                continue
+            except Exception as ex:      # noqa: BLE001
+                findings.append({"clause": "unexpected_exception", "mapper": rname, "case": case,
+                                 "exc": type(ex).__name__, "nodekind": kind,
+                                 "what": f"changing one {kind} raised {type(ex).__name__}: {ex}"[:200]})
+                continue
+            stats["subst_runs"] += 1
+            for ek in eks:
+                k3 = f"{rname}/{kind}/{ek}"
+                stats["subst_triples"][k3] = stats["subst_triples"].get(k3, 0) + 1
+            records.append(H.subst_record(f"{case}|{rname}|{kind}|{'+'.join(eks)}", root,
+                                          expected, got))
+    return {"records": [], "subst": records, "findings": findings, "stats": stats}
+
+
 def _work_t3(args: tuple) -> dict:
     """deterministic edge-kind witnesses: every entry point and every
     directly instantiable mapper class on every witness graph"""
@@ -452,7 +487,7 @@ def _work_t3(args: tuple) -> dict:
     profiles = _W["profiles"]
     classes = _W.setdefault("classes", H.discover_mappers())
     entries = _W.setdefault("entries", H.entry_points())
-    root = H.witness_graphs()[name]
+    root = H.all_witnesses()[name]
     case = f"t3/{name}"
     records, findings = [], []
     g0 = H.reflect(root)
@@ -569,12 +604,16 @@ def main(tier: str, only: dict | None = None) -> int:
     t2chunks = [t2shapes[i::NCPU * 2] for i in range(NCPU * 2) if t2shapes[i::NCPU * 2]]
     with mp.Pool(NCPU, initializer=_winit, initargs=(gen["expect"],)) as pool:
         if only is None:
-            a_t3 = pool.map_async(_work_t3, [(w, None) for w in H.witness_graphs()],
+            a_t3 = pool.map_async(_work_t3, [(w, None) for w in H.all_witnesses()],
                                   chunksize=1)
             a_lad = pool.map_async(_work_ladder, ladders, chunksize=1)
             a_t2 = pool.map_async(_work_t2, [(c, tier) for c in t2chunks], chunksize=1)
             parts = pool.map_async(_work_t1, [(c, tier) for c in chunks]).get(2400)
-            parts += a_lad.get(2400) + a_t2.get(2400) + a_t3.get(2400)
+            a_sub = pool.map_async(_work_subst, [(w, None) for w in H.all_witnesses()],
+                                   chunksize=1)
+            parts += a_lad.get(2400) + a_t2.get(2400) + a_t3.get(2400) + a_sub.get(2400)
+        elif flt["kind"] == "subst":
+            parts = pool.map_async(_work_subst, [(only["case"].split("/")[1], flt)]).get(2400)
         elif flt["kind"] == "t3":
             parts = pool.map_async(_work_t3, [(only["case"].split("/")[1], flt)]).get(2400)
         elif flt["kind"] == "t1":
@@ -587,11 +626,26 @@ def main(tier: str, only: dict | None = None) -> int:
                 (l, sc, d) for l, sc, d in ladders
                 if (l[0], sc) == (lname, scheme)] or [
                 (l, scheme, depth) for l in H.ladder_shapes(depth) if l[0] == lname]).get(2400)
-    records, findings, stats = [], [], {}
+    records, findings, stats, subst = [], [], {}, []
     for p in parts:
         records += p["records"]
+        subst += p.get("subst", [])
         findings += p["findings"]
         _merge(stats, p["stats"])
+    # substitution consistency, judged by spec/PtSubst.tla
+    sval = tlc.validate_records("PtSubst", "PtSubst.cfg", subst, timeout=900,
+                                shards=min(NCPU, 8)) if subst else tlc.Validation({}, {})
+    import re as _re
+    for sr in subst:
+        if sval.verdicts[sr["id"]] == "ok":
+            continue
+        case, rname, kind, eks = sr["id"].split("|")
+        for cl in _re.findall(r'"([^"]+)"', sval.detail.get(sr["id"], "")) or ["failed"]:
+            findings.append({"clause": "subst:" + cl.rsplit(":", 1)[0] if cl.count(":") > 1
+                             else "subst:" + cl, "mapper": rname, "case": case,
+                             "nodekind": kind, "edgekind": eks,
+                             "what": f"changing one {kind} (reached through {eks}) only: {cl}",
+                             "subst": sr["id"]})
     uniq, alias = _dedupe(records)
     val = tlc.validate_records("PtMapperTrace", "PtMapperTrace.cfg", uniq, timeout=1500,
                                shards=NCPU)
@@ -632,9 +686,12 @@ def main(tier: str, only: dict | None = None) -> int:
     skipped = {k: profiles[k].skip for k in profiles if profiles[k].skip}
     untabled = sorted(k for k in classes if k not in profiles)
     run.coverage.update({
-        "states": sum(m["states"] for m in mc) + gen["states"] + val.states,
-        "transitions": sum(m["transitions"] for m in mc) + gen["transitions"] + val.transitions,
-        "traces_validated_against_impl": len(records),
+        "states": sum(m["states"] for m in mc) + gen["states"] + val.states + sval.states,
+        "transitions": sum(m["transitions"] for m in mc) + gen["transitions"] + val.transitions
+        + sval.transitions,
+        "traces_validated_against_impl": len(records) + len(subst),
+        "substitution_records": len(subst),
+        "substitution_triples": stats.get("subst_triples", {}),
         "distinct_traces": len(uniq),
         "evaluations": stats.get("runs", 0),
         "distinct_nontrivial": sum(1 for r in uniq if any(e["ev"] == "hit" or e["ev"] ==
